@@ -88,10 +88,10 @@ Print Assumptions C20_checks_hold.
 (* Non-vacuity: two publishers failing on the same subscriber while an unsubscribe races the
    failure clean-up; the schedule interleaves the four critical sections. *)
 Example C20_nonvacuous :
-  let ts := [TSub [mkSub 1 None [0] [true; true]]; TPub1 5 [7%Z]; TPub1 5 [8%Z]; TUnsub 5] in
+  let ts := [TSub [mkSub 1 None [0] [true; true]]; TPub1 5 [Some 7%Z]; TPub1 5 [Some 8%Z]; TUnsub 5] in
   wf_calls ts /\
   exists l bs, exec [0; 1; 2; 3; 1; 2] [] ts = Some (l, [TDone; TDone; TDone; TDone], bs) /\
-    strace bs = [Deliver 1 [(0, 7%Z)] false; Deliver 1 [(0, 8%Z)] false; Cleanup 1].
+    strace bs = [Deliver 1 [(0, Some 7%Z)] false; Deliver 1 [(0, Some 8%Z)] false; Cleanup 1].
 Proof.
   split.
   - split; [simpl; repeat constructor; simpl; tauto|repeat constructor].
